@@ -276,6 +276,8 @@ func spawn(name string, task bool, f func()) {
 				buf = buf[:runtime.Stack(buf, false)]
 				s.taskPanics = append(s.taskPanics, fmt.Sprintf("worker %d %q panicked: %v\n%s", w.id, w.name, v, buf))
 			}
+			// everything this worker did happens-before the post-run oracles (no library code runs after the run)
+			raceRelease(unsafe.Pointer(&endSync))
 			s.emit(event{w: w, kind: evExit})
 		}()
 		f()
@@ -415,11 +417,15 @@ func (s *Sim) noteAcquire(w *worker, m *Mutex) {
 }
 
 type WaitGroup struct {
-	n int
+	n    int
+	sync int // race-detector edge: Done happens-before the return of Wait, as with sync.WaitGroup
 }
 
 //go:norace
 func (wg *WaitGroup) Add(n int) {
+	if n < 0 {
+		raceRelease(unsafe.Pointer(&wg.sync))
+	}
 	wg.n += n
 	if wg.n == 0 {
 		Wake(wg)
@@ -440,6 +446,7 @@ func (wg *WaitGroup) Wait() {
 	for wg.n > 0 {
 		BlockOn(wg)
 	}
+	raceAcquire(unsafe.Pointer(&wg.sync))
 }
 
 // Sleep replaces time.Sleep in woven code: the block is announced so the controller can advance the clock.
@@ -638,6 +645,19 @@ func Choose(n int) int {
 	return cur.choose(n)
 }
 
+// CurrentID returns the id of the worker that holds the baton (-1 outside a simulation or in the controller).
+//
+//go:norace
+func CurrentID() int {
+	if cur == nil || cur.current == nil {
+		return -1
+	}
+	return cur.current.id
+}
+
+// MaxWorkers bounds worker ids (harness code keeps per-worker state in arrays of this size).
+const MaxWorkers = maxWorkers
+
 // Step returns the global event sequence number (for ordering oracles).
 //
 //go:norace
@@ -697,6 +717,7 @@ func Run(tape *Tape, cfg Config, hook func(*Sim) Hook, root func()) Result {
 	tm.Stop()
 	spawn("root", true, root)
 	res := s.loop()
+	raceAcquire(unsafe.Pointer(&endSync))
 	res.SimElapsed = time.Since(s.start)
 	res.Edges = s.edges
 	s.teardown(&res)
@@ -1035,6 +1056,7 @@ func (s *Sim) idle(d time.Duration) bool {
 }
 
 var ioSync int
+var endSync int
 
 // IOAcquire / IORelease mimic internal/poll's race annotations for socket reads and writes.
 func IOAcquire() { raceAcquire(unsafe.Pointer(&ioSync)) }
